@@ -40,6 +40,11 @@ def instances(tier):
     else:
         for k in ("Affine", "Rotation", "AlignmentSimilarity", "NonUniformScale"):
             out.append(("homog", {"kind": k, "n": 3}))
+    # alignments built by their real constructors from symbolic, NOT exactly related point sets (so that the
+    # alignment's target differs from transform(source) and an exchange of ends is observable by value)
+    for k in ("AlignmentAffine", "AlignmentTranslation", "AlignmentUniformScale"):
+        for n in dims:
+            out.append(("align_inexact", {"kind": k, "n": n}))
     out.append(("pwa", {"sym": "target", "tris": 1, "symv": [0, 1, 2]}))
     for sym_side in ("target", "source"):
         for v in range(4):
@@ -73,17 +78,55 @@ def homog(F, ob, cfg):
     ob.eq("det(inv)det(t)=1", K.det(inv.h_matrix) * K.det(t.h_matrix), 1)
     if isinstance(t, Alignment):
         ob.true("align.type", type(inv) is type(t))
-        ob.true("align.swapped", inv._source is t._target and inv._target is t._source)
+        # source and target exchanged (by value: an implementation is free to copy the point sets)
+        ob.eq("align.swapped.source", inv.source.points, t.target.points)
+        ob.eq("align.swapped.target", inv.target.points, t.source.points)
         ob.eq("align.target=inv(source)", inv.apply(inv.source.points), inv.target.points)
         ob.eq("align.aligned_source", inv.aligned_source().points, inv.target.points)
     else:
         ob.true("type", isinstance(inv, type(t)) or isinstance(t, type(inv)))
     K.same_terms(F, ob, "self.unchanged", snap, t.h_matrix)
-    ob.true("fresh", inv is not t and inv.h_matrix is not t.h_matrix)
 
 
 S0 = [[0.0, 0.0], [2.0, 0.5], [0.5, 2.0], [2.5, 2.5]]
 T0 = [[0.25, -0.25], [2.5, 1.0], [0.0, 2.25], [3.0, 2.75]]
+
+
+def align_inexact(F, ob, cfg):
+    """pseudoinverse of an alignment fitted to inexactly related point sets: ends exchanged, exact inverse map"""
+    import menpo.transform as mt
+    from menpo.shape import PointCloud
+
+    n = cfg["n"]
+    npts = n + 2
+    if cfg["kind"] == "AlignmentAffine":
+        # the least-squares fit is a rational function of the source; keep the source concrete (exact constants)
+        # and the target symbolic, otherwise the polynomials of fit and inverse explode
+        base = [[0.0, 0.0, 0.5], [2.0, 0.5, 0.0], [0.5, 2.0, 1.0], [2.5, 2.5, 2.0], [1.0, -1.0, 3.0]]
+        s = K.const(F, [r[:n] for r in base[:npts]])
+    else:
+        s = F.reals("s", (npts, n), -4, 4)
+    tg = F.reals("t", (npts, n), -4, 4)
+    S, T = PointCloud(s, copy=False), PointCloud(tg, copy=False)
+    if cfg["kind"] == "AlignmentUniformScale":
+        sc, tc = s - S.centre(), tg - T.centre()
+        F.assume((sc * sc).sum() >= 0.05)
+        F.assume((tc * tc).sum() >= 0.05)
+    al = getattr(mt, cfg["kind"])(S, T)
+    ss, st = K.snapshot(al.source.points), K.snapshot(al.target.points)
+    inv = al.pseudoinverse()
+    ob.true("type", type(inv) is type(al))
+    ob.eq("swapped.source", inv.source.points, tg)
+    ob.eq("swapped.target", inv.target.points, s)
+    x = F.reals("x", (1, n))
+    ob.eq("left", inv.apply(al.apply(x)), x)
+    ob.eq("right", al.apply(inv.apply(x)), x)
+    K.same_terms(F, ob, "original.source", ss, al.source.points)
+    K.same_terms(F, ob, "original.target", st, al.target.points)
+    inv2 = inv.pseudoinverse()
+    ob.eq("double.h_matrix", inv2.h_matrix, al.h_matrix)
+    ob.eq("double.source", inv2.source.points, s)
+    ob.eq("double.target", inv2.target.points, tg)
 
 
 def _tri_pts(F, tag, tris, base, symv):
